@@ -81,7 +81,7 @@ pub fn render_def(def: &DefIn) -> String {
     for s in &def.skips {
         out.push_str(&format!("#[logos(skip({}))]\n", attr_args(s)));
     }
-    out.push_str(&format!("pub enum {name} {{\n"));
+    out.push_str(&format!("pub enum {name}{} {{\n", def.enum_generics.clone().unwrap_or_default()));
     for (i, v) in def.vars.iter().enumerate() {
         for a in &v.attrs {
             out.push_str(&format!("    #[{}({})]\n", a.kind, attr_args(a)));
